@@ -1742,6 +1742,23 @@ func aprAwait(t *h.Task, bound time.Duration) bool {
 	}
 }
 
+// aprAwaitAll: one bound for all of them; returns how many have not ended
+func aprAwaitAll(ts []*h.Task, bound time.Duration) int {
+	t0 := time.Now()
+	for {
+		left := 0
+		for _, t := range ts {
+			if !t.IsDone() {
+				left++
+			}
+		}
+		if left == 0 || (time.Since(t0) > bound && h.Kept(t0) > bound/2) {
+			return left
+		}
+		time.Sleep(200 * time.Microsecond)
+	}
+}
+
 func aprSpin(d time.Duration) {
 	for t0 := time.Now(); time.Since(t0) < d; {
 	}
@@ -1773,6 +1790,7 @@ func aprConcurrentCleanups(r *h.Report, rounds int) {
 	}
 	hit := map[string]int{}
 	ctr := 20
+	phaseStart := time.Now()
 	// how long the stack takes from the arrival of a removal announcement to its end (no verdicts around): the
 	// verdicts are released somewhere inside that span
 	var lat []time.Duration
@@ -1843,37 +1861,51 @@ func aprConcurrentCleanups(r *h.Report, rounds int) {
 		// the clean-up on its own goroutine, the verdicts released around it
 		lead := time.Duration(rng.Int63n(int64(span) + 1))
 		gap := time.Duration(rng.Int63n(int64(span)/int64(2*len(tasks)) + 1)) // the verdicts spread over up to half the span
-		if round%2 == 1 {
+		if round%4 == 2 {
 			lead = span/2 + time.Duration(rng.Int63n(int64(span)/2+1)) // the clean-up of the approvals comes last in a removal
 		}
 		if mode == "writers-entity" {
 			gap = 0 // releasing ~50 parked goroutines one after the other is spread enough
 		}
 		var clean *h.Task
-		switch mode {
-		case "other-entity":
-			ctr++
-			dg := aprRemovedNotify(0, uint(2+(round/4)%2), ctr)
-			clean = h.Go(func() { w.inject(0, dg) })
-		case "writers-entity":
-			ctr++
-			dg := aprRemovedNotify(0, 1, ctr)
-			clean = h.Go(func() { w.inject(0, dg) })
-		default:
-			clean = h.Go(func() { w.drop(0) })
-		}
-		aprSpin(lead)
-		for _, t := range tasks {
-			t.Release()
-			aprSpin(gap)
-		}
-		stuck := 0
-		for _, t := range tasks {
-			if !aprAwait(t, bound) {
-				stuck++
+		startClean := func() {
+			switch mode {
+			case "other-entity":
+				ctr++
+				dg := aprRemovedNotify(0, uint(2+(round/4)%2), ctr)
+				clean = h.Go(func() { w.inject(0, dg) })
+			case "writers-entity":
+				ctr++
+				dg := aprRemovedNotify(0, 1, ctr)
+				clean = h.Go(func() { w.inject(0, dg) })
+			default:
+				clean = h.Go(func() { w.drop(0) })
 			}
 		}
-		cleanDone := aprAwait(clean, bound)
+		if round%2 == 0 {
+			// the clean-up first, the verdicts somewhere inside the time it takes
+			startClean()
+			aprSpin(lead)
+			for _, t := range tasks {
+				t.Release()
+				aprSpin(gap)
+			}
+		} else {
+			// the verdicts first, the clean-up somewhere inside their burst (a released goroutine has to wake up:
+			// on a busy machine that takes longer than the clean-up)
+			at := rng.Intn(len(tasks))
+			for i, t := range tasks {
+				if i == at {
+					startClean()
+				}
+				t.Release()
+			}
+		}
+		stuck := aprAwaitAll(append(append([]*h.Task{}, tasks...), clean), bound)
+		cleanDone := clean.IsDone()
+		if !cleanDone {
+			stuck--
+		}
 		if stuck > 0 || !cleanDone {
 			fail(key, fmt.Sprintf("round %d: %d writes were pending with two approvals each being committed (ApproveOrDenyWrite, %d goroutines) while the stack processed '%s' for the peer: %d verdict calls and the clean-up (returned: %v) have not returned after %v - the feature is blocked: none of its writes can get an outcome any more, not even by timeout", round, nW, len(tasks), mode, stuck, cleanDone, bound))
 			return
@@ -1933,7 +1965,7 @@ func aprConcurrentCleanups(r *h.Report, rounds int) {
 		ctr = 20
 		r.Eval("concurrent-cleanup:"+mode, "")
 	}
-	r.Info["concurrent_cleanups"] = fmt.Sprintf("%d rounds (verdict goroutines released inside the %v an entity removal takes / around a disconnect): %v", rounds, span, hit)
+	r.Info["concurrent_cleanups"] = fmt.Sprintf("%d rounds (verdict goroutines released inside the %v an entity removal takes / around a disconnect): %v, %v", rounds, span, hit, time.Since(phaseStart).Round(time.Millisecond))
 }
 
 // ---------- the test
